@@ -265,9 +265,9 @@ def run_unit(u, desc, tier, seed):
         rt, rl = leaf['result']
         res = residuals(rt, rl, scale)
         if res is None:
-            u.prove('C14/%s/same-shape%s' % (name, tag), pre, z3.BoolVal(False), replay=mk_replay(name), detail='results of different shape/kind', timeout=20)
+            u.prove('C14/%s/same-shape%s' % (name, tag), pre, z3.BoolVal(False), replay=mk_replay(name, f), detail='results of different shape/kind', timeout=20)
             continue
-        u.prove('C14/%s%s' % (name, tag), pre, C.resid_goal(zc, res), replay=mk_replay(name),
+        u.prove('C14/%s%s' % (name, tag), pre, C.resid_goal(zc, res), replay=mk_replay(name, f),
                 detail='tools.%s == %slaue.%s (%d components, %d non-zero residuals)' % (name, '2*pi*' if name in KAPPA_OUT else '', name, len(res), C.nz_count(res)),
                 timeout=30, sample=(li == 0))
 
@@ -403,19 +403,35 @@ def run_concrete(u, name, tools, laue):
             detail='%d concrete calls give identical arrays in both modules (enumeration; solver adds nothing here)' % n)
 
 
-def mk_replay(name):
+def mk_replay(name, f=None):
     def replay(model):
-        # differential witnesses are confirmed by the property-specific replays of C01-C03/C09/C13; here: run both real functions at a generic float point
+        # differential witnesses are confirmed by the property-specific replays of C01-C03/C09/C13; here: run both real functions at the
+        # cell of the solver model (a difference may live on special angles only) and at a generic float point
+        mcell = None
+        if f is not None and model:
+            try:
+                mcell = [float(x) for x in C.cell_floats(C.env_from_model(f, model))]
+                if not all(math.isfinite(x) for x in mcell):
+                    mcell = None
+            except Exception:
+                mcell = None
+        if mcell is not None:
+            try:
+                ok, text = numeric(name, mcell)
+            except Exception:
+                ok, text = False, ''
+            if ok:
+                return ok, {'name': name, 'kind': 'model-cell', 'cell': mcell}, text
         ok, text = numeric(name)
         return ok, {'name': name, 'kind': 'generic-point'}, text
     return replay
 
 
-def numeric(name):
+def numeric(name, cell=None):
     from xfab import tools, laue
     import xfab
     xfab.CHECKS.activated = True
-    cell = [3.1, 4.2, 5.3, 81., 96., 101.]
+    cell = list(cell) if cell is not None else [3.1, 4.2, 5.3, 81., 96., 101.]
     cell2 = [3.15, 4.1, 5.35, 82., 95., 100.5]
     from .c02 import rot_from_quat
     cands = []
@@ -457,6 +473,8 @@ def numeric(name):
 
 def replay(rec):
     r = rec['replay']
+    if r.get('kind') == 'model-cell':
+        return numeric(r['name'], r['cell'])
     if r.get('kind') == 'concrete':
         from vengine.core import Unit
         from xfab import tools, laue
